@@ -2,7 +2,7 @@
 import vlib
 
 SUB = "c08"
-MODULES = ["Mtv.Props.C08", "Mtv.Props.Arith"]
+MODULES = ["Mtv.Props.C08", "Mtv.Props.Arith", "Mtv.Props.ArithFrame"]
 THEOREMS = [
     "Mtv.Framing.readFullSegs_spec",
     "Mtv.Framing.readFull_chunking",
